@@ -40,6 +40,11 @@ def step (st : Store) (line : String) : Store × String :=
     match arg f with
     | some f => (st, showList (st.getMatchedMessages f))
     | none => (st, "bad-op")
+  | "cmatch" :: fs =>
+    -- concurrent lookups: each answers what it answers alone
+    match fs.mapM arg with
+    | some l => (st, String.intercalate " | " (l.map (fun f => showList (st.getMatchedMessages f))))
+    | none => (st, "bad-op")
   | ["iter"] => (st, showList st.iterateAll)
   | ["iterstop", n] => (st, s!"calls={st.iterate (countStop (natOf n)) 0}")
   | _ => (st, "bad-op")
